@@ -1145,3 +1145,100 @@ func (c *Ctx) isLitDefaultPanic(ef Effect) bool {
 	}
 	return false
 }
+
+// ---------------------------------------------------------------------------------------------
+
+func init() {
+	register("W-FILE-ARGS", "exported File methods neither retain nor modify a map handed in by the caller (hint tables are copied entry by entry), so Files built from one shared table stay independent", 1, ruleFileArgs)
+}
+
+func ruleFileArgs(c *Ctx) []Obligation {
+	o := c.newObs("W-FILE-ARGS")
+	g := c.CG()
+	for _, f := range c.allFuncs(c.Jen) {
+		if f.Parent() != nil || !isFileMethod(c, f) || !isExportedName(f.Name()) {
+			continue
+		}
+		sum := g.Sum[f]
+		for pi, p := range f.Params {
+			if pi == 0 {
+				continue
+			}
+			if _, isMap := p.Type().Underlying().(*types.Map); !isMap {
+				continue
+			}
+			construct := fmt.Sprintf("map parameter %d (%s)", pi-1, p.Name())
+			bad := ""
+			// modified?
+			for _, ef := range sum.sortedEffects() {
+				if ef.Root.Kind == "param" && ef.Root.Idx == pi && (ef.Kind == "store" || ef.Kind == "mapupdate" || ef.Kind == "extmut") {
+					bad = fmt.Sprintf("the caller's map is modified (%s %s in %s)", ef.Kind, ef.What, ef.Via)
+				}
+			}
+			// retained? the parameter value itself (or a phi / conversion of it) is stored or returned
+			var retained func(v ssa.Value, depth int) string
+			retained = func(v ssa.Value, depth int) string {
+				if depth > 3 {
+					return ""
+				}
+				for _, r := range nonDebugRefs(v) {
+					switch x := r.(type) {
+					case *ssa.Store:
+						if x.Val == v {
+							return "the caller's map is kept (stored into " + c.FA(f).obj(x.Addr) + ")"
+						}
+					case *ssa.MapUpdate:
+						if x.Value == v || x.Key == v {
+							return "the caller's map is kept inside another map"
+						}
+					case *ssa.Return:
+						return "the caller's map is returned"
+					case *ssa.MakeInterface, *ssa.ChangeType, *ssa.Phi:
+						if s := retained(r.(ssa.Value), depth+1); s != "" {
+							return s
+						}
+					case *ssa.MakeClosure:
+						return "the caller's map is captured by a closure"
+					case ssa.CallInstruction:
+						cc := x.Common()
+						if _, isB := cc.Value.(*ssa.Builtin); isB {
+							continue
+						}
+						if sc := cc.StaticCallee(); sc != nil && g.Sum[sc] != nil {
+							// a module callee: it must itself only read it (checked through the summary above) and not keep it
+							for i, ar := range cc.Args {
+								if ar == v && i < len(sc.Params) {
+									if s := retainedIn(c, sc, sc.Params[i]); s != "" {
+										return s + " (via " + fname(sc) + ")"
+									}
+								}
+							}
+							continue
+						}
+						return "the caller's map is passed to " + calleeName(cc)
+					}
+				}
+				return ""
+			}
+			if bad == "" {
+				bad = retained(p, 0)
+			}
+			o.req(bad == "", fname(f), construct+" is only read", f.Pos(), "%s — two Files given the same table would influence each other, and the caller's table would change under its feet", bad)
+		}
+	}
+	return o.list
+}
+
+func retainedIn(c *Ctx, f *ssa.Function, p *ssa.Parameter) string {
+	for _, r := range nonDebugRefs(p) {
+		switch x := r.(type) {
+		case *ssa.Store:
+			if x.Val == ssa.Value(p) {
+				return "the caller's map is kept (stored into " + c.FA(f).obj(x.Addr) + ")"
+			}
+		case *ssa.Return:
+			return "the caller's map is returned"
+		}
+	}
+	return ""
+}
